@@ -228,10 +228,12 @@ CELER_FUNCTION auto FieldDriver<StepperT>::find_next_chord(
     bool succeeded = false;
     auto remaining_steps = options_.max_nsteps;
     FieldStepperResult result;
+    real_type applied_step;
 
     do
     {
         // Try with the proposed step
+        applied_step = step;
         result = apply_step_(step, state);
 
         // Check whether the distance to the chord is smaller than the
@@ -252,11 +254,14 @@ CELER_FUNCTION auto FieldDriver<StepperT>::find_next_chord(
         }
     } while (!succeeded && --remaining_steps > 0);
 
-    // Update step, position and momentum
-    output.end.step = step;
+    // Update step, position and momentum: the end state belongs to the last
+    // step actually applied, which is longer than the next trial step if the
+    // iteration budget ran out
+    output.end.step = applied_step;
     output.end.state = result.end_state;
-    output.err_sq = detail::rel_err_sq(result.err_state, step, state.mom)
-                    / ipow<2>(options_.epsilon_rel_max);
+    output.err_sq
+        = detail::rel_err_sq(result.err_state, applied_step, state.mom)
+          / ipow<2>(options_.epsilon_rel_max);
 
     return output;
 }
@@ -380,9 +385,11 @@ FieldDriver<StepperT>::one_good_step(real_type step,
     size_type remaining_steps = options_.max_nsteps;
     real_type err_sq;
     FieldStepperResult result;
+    real_type applied_step;
 
     do
     {
+        applied_step = step;
         result = apply_step_(step, state);
 
         err_sq = detail::rel_err_sq(result.err_state, step, state.mom)
@@ -401,9 +408,10 @@ FieldDriver<StepperT>::one_good_step(real_type step,
         }
     } while (!succeeded && --remaining_steps > 0);
 
-    // Update state, step taken by this trial and the next predicted step
+    // Update state, step taken by this trial (longer than the reduced step if
+    // the iteration budget ran out) and the next predicted step
     output.end.state = result.end_state;
-    output.end.step = step;
+    output.end.step = applied_step;
     output.proposed_step
         = step
           * min(this->new_step_scale(err_sq), options_.max_stepping_increase);
